@@ -3,11 +3,12 @@ package main
 // Registration of work package FB under the properties C06, C07 and C08.
 
 func init() {
-	addRun("C06", "FB: predictor shapes (Colors x BitsPerComponent x Columns x predictor 1,2,10..15; gradients, extremes, constants, random) through predict.NewWriter/NewReader, the Lean model and FilterFlate/LZW/Compress (Encode->Info->MakeFilter->Decode) with random write/read chunkings; Params.Validate on boundary and huge values; paethPredictor on boundary and random triples. Non-trivial: at least one data byte and a predictor other than 1; distinct by parameters and data.", runFBPredict)
+	addRun("C06", "FB: predictor shapes (Colors x BitsPerComponent x Columns x predictor 1,2,10..15; gradients, extremes, constants, random) through predict.NewWriter/NewReader, the Lean model and FilterFlate/LZW/Compress (Encode->Info->MakeFilter->Decode) with random write/read chunkings; Params.Validate on boundary and huge values; paethPredictor on boundary and random triples; in EVERY run the complete grid Predictor 2 x BitsPerComponent {1,2,4,8,16} x Colors {1..4} x Columns {1..17, 24, 31..33, 40, 63..65, 128} x rows {1,2,3,5} x {all ones, every row ending in a 1 sample, alternating, random} and PNG 10..15 over a small geometry grid with 2..5 rows through writer and reader (oracle fb-predict-grid; cell counts in the evidence stats tiffgrid_*, pnggrid_*). Non-trivial: at least one data byte and a predictor other than 1; distinct by parameters and data.", runFBPredict)
 	addRun("C06", "FB: CCITTFax K<0,0,>0 x EndOfLine x EncodedByteAlign x BlackIs1 x EndOfBlock x Rows x Columns (1..300, 1728, 2560..5120), rows of random bits, byte runs, runs that are multiples of 64, near copies of the previous row, all white/black, rows of 200000 pixels with runs of 161344 pixels and more; encoder and decoder compared with the model, round trip through Info->MakeFilter required for EVERY parameter class: a failure inside one of the classes that failed before the reader was repaired is reported under that class key (ccitt-noeob, ccitt-bytealign, ccitt-kpos-rows, ccitt-1d-final-run-64, ccitt-2d-long-run: regression detectors), any other under roundtrip. Non-trivial: at least one row.", runFBCCITT)
 	addRun("C06", "FB: filter parameter values (valid, shorthand 0, out of range, version dependent) through Info, the emitted dictionary through MakeFilter; arbitrary DecodeParms dictionaries (type confusion, magnitudes up to int64 limits) through MakeFilter; /Filter and /DecodeParms of any shape through GetFilters (chain cap 8, Crypt position); appendFilter from arbitrary entries. Non-trivial: a non-empty dictionary.", runFBParams)
 	addRun("C06", "FB: chains of up to 3 filters through Writer.OpenStream and Reader/DecodeStream with random chunkings.", runFBChains)
 	addRun("C06", "FB: every encoder (CCITTFax K<0/0/>0 with all option sets, Flate/LZW/Compress with predictor rows, ASCII85, ASCIIHex, RunLength) fed from ONE reused caller buffer that is overwritten after every Write — sizes 1,2,3,5,7, row-1, row, row+1, 2.5 rows, 2 rows+1, 3 rows-1, 13, 127, 4095, random — and through io.CopyBuffer: output byte-identical to the single-Write encoding; the encoding read back with 1/3/5/7-byte reused destination buffers and (CCITTFax G4, G3 1-D+EOL) by x/image/ccitt. Non-trivial: data not empty.", runFBChunking)
+	addReplay("C06", "fb-predict-grid", replayPredGrid)
 	addReplay("C06", "fb-chunking", replayChunking)
 	addReplay("C06", "fb-predict-rt", replayPredictRT)
 	addReplay("C06", "fb-ccitt-rt", replayCCITTRT)
@@ -15,8 +16,9 @@ func init() {
 	addReplay("C06", "fb-chain-rt", replayChainRT)
 	addReplay("C06", "fb-getfilters", replayGetFilters)
 
-	addRun("C07", "FB: library PNG/TIFF predictor output decoded by, and input encoded by, reference codecs written from the PNG and TIFF specifications (Go, in the harness, and Lean Spec/FBCodecs through the driver); library CCITTFax Group 4 (with and without EncodedByteAlign) and Group 3 1-D (EndOfLine) output, with and without the end-of-block pattern, decoded by golang.org/x/image/ccitt; the ten Group 4 / Group 3 sample files of x/image/ccitt's test data (written by an unrelated encoder: plain, inverted, byte-aligned Group 4, EOFB-less) decoded by the library and by x/image/ccitt with BlackIs1 and EndOfBlock varied: identical bytes (key foreign-ccitt-sample), the same files through the Lean reader model. Non-trivial: at least one row.", runFBForeign)
+	addRun("C07", "FB: library PNG/TIFF predictor output decoded by, and input encoded by, reference codecs written from the PNG and TIFF specifications (random parameter sets AND the complete TIFF/PNG grid of fb_predgrid.go in every run; for /Predictor 10..14 the reference encoder also chooses the filter type per row, tags differing from the declared predictor: key foreign-predict-rowtag) (Go, in the harness, and Lean Spec/FBCodecs through the driver); library CCITTFax Group 4 (with and without EncodedByteAlign) and Group 3 1-D (EndOfLine) output, with and without the end-of-block pattern, decoded by golang.org/x/image/ccitt; the ten Group 4 / Group 3 sample files of x/image/ccitt's test data (written by an unrelated encoder: plain, inverted, byte-aligned Group 4, EOFB-less) decoded by the library and by x/image/ccitt with BlackIs1 and EndOfBlock varied: identical bytes (key foreign-ccitt-sample), the same files through the Lean reader model. Non-trivial: at least one row.", runFBForeign)
 	addRun("C07", "FB: the reused-buffer / io.CopyBuffer encodings of CCITTFax (all K classes) and of the predictor filters equal the single-Write encoding and are read by x/image/ccitt (G4, G3 1-D+EOL).", runFBChunking)
+	addReplay("C07", "fb-predict-grid", replayPredGrid)
 	addReplay("C07", "fb-chunking", replayChunking)
 	addReplay("C07", "fb-foreign-predict", replayForeignPredict)
 	addReplay("C07", "fb-foreign-ccitt", replayForeignCCITT)
